@@ -312,7 +312,41 @@ func (dv *dev) transitiveFacts(root *ssa.Function, at actionTable) fnFacts {
 }
 
 func isActionTableCall(v ssa.Value, dv *dev) bool {
-	return derivesFromField(v, dv.fields["actionsPress"], map[ssa.Value]bool{}) || derivesFromField(v, dv.fields["actionsRelease"], map[ssa.Value]bool{})
+	if derivesFromField(v, dv.fields["actionsPress"], map[ssa.Value]bool{}) || derivesFromField(v, dv.fields["actionsRelease"], map[ssa.Value]bool{}) {
+		return true
+	}
+	// the table handed to a shared dispatcher (`d.invokeAction(d.actionsPress, action)`): what every caller passes
+	x := v
+	for i := 0; i < 4; i++ {
+		switch y := x.(type) {
+		case *ssa.Extract:
+			x = y.Tuple
+			continue
+		case *ssa.Lookup:
+			x = y.X
+			continue
+		}
+		break
+	}
+	prm, ok := x.(*ssa.Parameter)
+	if !ok {
+		return false
+	}
+	sites, all := staticCallSites(dv.p, prm.Parent())
+	idx := paramIndex(prm)
+	if !all || len(sites) == 0 || idx < 0 {
+		return false
+	}
+	for _, cs := range sites {
+		if idx >= len(cs.Common().Args) {
+			return false
+		}
+		a := cs.Common().Args[idx]
+		if !derivesFromField(a, dv.fields["actionsPress"], map[ssa.Value]bool{}) && !derivesFromField(a, dv.fields["actionsRelease"], map[ssa.Value]bool{}) {
+			return false
+		}
+	}
+	return true
 }
 
 func isMidiEventChan(t types.Type) bool {
